@@ -4496,4 +4496,15 @@ theorem provPolicyHandler_proceed_iff (verb : PolicyVerb) (has p v : Bool) :
       (verb = .delete ∧ has = true) := by
   cases verb <;> cases has <;> cases p <;> cases v <;> decide
 
+/-- **a second provisioner with a token id that is already served is refused before anything is
+    written** — whatever its name, its id (the database assigns one; an id in the request plays no
+    part) and the storage failures: token ids that do not depend on the name (all Kubernetes
+    service-account provisioners share one; OIDC: the client id; Azure: the tenant id) collide
+    between differently named provisioners. -/
+theorem storeProv_duplicate_token_refused (v : Variant) (f : Faults) (s : Auth) (p : Prov)
+    (hc : p.conv = true) (hn : s.cache.P.byName.has p.name = false) (ht : s.cache.P.byTok.has p.tok = true) :
+    Auth.step v f s (.storeProv p) = ({ s with calls := 0 }, .badRequest) := by
+  unfold Auth.step
+  simp [hc, hn, ht]
+
 end Verif.Admin
